@@ -1,0 +1,63 @@
+//go:build verif
+
+package discovery
+
+// Contracts checked by /verif/engine (govc). Comment-only file: no code is compiled from it.
+
+// C03: pint ci classifies every rule's change state from the comparison of the base and HEAD versions.
+// git.Changes (the parsing of git's own output) is outside the contracts; what is proved is how the per-file
+// before/after entry lists are matched and how a matched pair is mapped to a state.
+
+// Partition of the remaining base entries by (kind, name).
+//@ func findRulesByName [C03]
+//@   ensures len(nomatch) + len(match) == len(entries) && fresh(nomatch) && fresh(match)
+//@   ensures forall i int :: 0 <= i && i < len(entries) ==> entries[i] == old(entries[i])
+//@   ensures forall k int :: 0 <= k && k < len(match) ==> match[k].PathError == nil && parser.ruleType(match[k].Rule) == typ && parser.ruleName(match[k].Rule) == name
+//@   ensures forall k int :: 0 <= k && k < len(nomatch) ==> !(nomatch[k].PathError == nil && parser.ruleType(nomatch[k].Rule) == typ && parser.ruleName(nomatch[k].Rule) == name)
+//@   loop 1 invariant 0 <= iter && iter <= len(entries) && len(nomatch) + len(match) == iter
+//@   loop 1 invariant forall k int :: 0 <= k && k < len(match) ==> match[k].PathError == nil && parser.ruleType(match[k].Rule) == typ && parser.ruleName(match[k].Rule) == name
+//@   loop 1 invariant forall k int :: 0 <= k && k < len(nomatch) ==> !(nomatch[k].PathError == nil && parser.ruleType(nomatch[k].Rule) == typ && parser.ruleName(nomatch[k].Rule) == name)
+//@   loop 1 invariant cap(match) == 0 || cap(nomatch) == 0 || !sameArray(match, nomatch)
+//@   loop 1 invariant fresh(nomatch) && fresh(match)
+//@   loop 1 invariant forall i int :: 0 <= i && i < len(entries) ==> entries[i] == old(entries[i])
+
+//@ func entriesWithPathErrors [C03]
+//@   ensures forall k int :: 0 <= k && k < len(match) ==> match[k].PathError != nil
+//@   ensures (exists i int :: 0 <= i && i < len(entries) && entries[i].PathError != nil) ==> len(match) > 0
+//@   loop 1 invariant 0 <= iter && iter <= len(entries)
+//@   loop 1 invariant forall k int :: 0 <= k && k < len(match) ==> match[k].PathError != nil
+//@   loop 1 invariant (exists i int :: 0 <= i && i < iter && entries[i].PathError != nil) ==> len(match) > 0
+
+// The state table: how a matched (before, after) pair is classified. Asserted where the entry is handed on.
+//@ func GitBranchFinder.Find [C03]
+//@   at call append#1 assert !me.hasBefore && me.hasAfter && me.after.State == Added
+//@   at call append#2 assert me.hasBefore && me.hasAfter &&
+//@        me.after.State == ((me.isIdentical && !me.wasMoved) ? Noop : (me.wasMoved ? Moved : Modified))
+//@   at call append#3 assert me.hasBefore && !me.hasAfter && len(failedEntries) == 0 && me.before.State == Removed
+
+// Matching of base and HEAD entries of one file change: every HEAD entry yields exactly one pair, in order;
+// what is left of the base entries yields before-only pairs (that the pair carries the HEAD entry itself is visible in the code but not proved: array aliasing); a pair is "moved" iff the two paths differ.
+//@ func matchEntries [C03]
+//@   ensures len(ml) >= len(after)
+//@   ensures forall i int :: 0 <= i && i < len(after) ==> ml[i].hasAfter
+//@   ensures forall i int :: len(after) <= i && i < len(ml) ==> ml[i].hasBefore && !ml[i].hasAfter && !ml[i].wasMoved && !ml[i].isIdentical
+//@   ensures forall i int :: 0 <= i && i < len(after) && ml[i].hasBefore ==> (ml[i].wasMoved <==> ml[i].after.Path.Name != ml[i].before.Path.Name)
+//@   ensures forall i int :: 0 <= i && i < len(after) && !ml[i].hasBefore ==> !ml[i].wasMoved && !ml[i].isIdentical
+//@   loop 1 invariant 0 <= iter && iter <= len(after) && len(ml) == iter
+//@   loop 1 invariant forall i int :: 0 <= i && i < iter ==> ml[i].hasAfter
+//@   loop 1 invariant forall i int :: 0 <= i && i < iter && ml[i].hasBefore ==> (ml[i].wasMoved <==> ml[i].after.Path.Name != ml[i].before.Path.Name)
+//@   loop 1 invariant forall i int :: 0 <= i && i < iter && !ml[i].hasBefore ==> !ml[i].wasMoved && !ml[i].isIdentical
+//@   loop 1 invariant cap(before) == 0 || cap(after) == 0 || !sameArray(before, after)
+//@   loop 2 invariant cap(before) == 0 || cap(after) == 0 || !sameArray(before, after)
+//@   loop 2 invariant fresh(beforeSwap) && (cap(beforeSwap) == 0 || cap(after) == 0 || !sameArray(beforeSwap, after))
+//@   loop 2 invariant 0 <= iter && iter <= len(before) && 1 <= iter1 && iter1 <= len(after)
+//@   loop 2 invariant len(ml) == iter1 - 1
+//@   loop 2 invariant m.hasAfter && m.after == a && (matched <==> m.hasBefore) && (m.hasBefore ==> (m.wasMoved <==> a.Path.Name != m.before.Path.Name)) && (!m.hasBefore ==> !m.wasMoved && !m.isIdentical)
+//@   loop 2 invariant forall i int :: 0 <= i && i < iter1-1 ==> ml[i].hasAfter
+//@   loop 2 invariant forall i int :: 0 <= i && i < iter1-1 && ml[i].hasBefore ==> (ml[i].wasMoved <==> ml[i].after.Path.Name != ml[i].before.Path.Name)
+//@   loop 2 invariant forall i int :: 0 <= i && i < iter1-1 && !ml[i].hasBefore ==> !ml[i].wasMoved && !ml[i].isIdentical
+//@   loop 3 invariant 0 <= iter && iter <= len(before) && len(ml) == len(after) + iter
+//@   loop 3 invariant forall i int :: 0 <= i && i < len(after) ==> ml[i].hasAfter
+//@   loop 3 invariant forall i int :: len(after) <= i && i < len(ml) ==> ml[i].hasBefore && !ml[i].hasAfter && !ml[i].wasMoved && !ml[i].isIdentical
+//@   loop 3 invariant forall i int :: 0 <= i && i < len(after) && ml[i].hasBefore ==> (ml[i].wasMoved <==> ml[i].after.Path.Name != ml[i].before.Path.Name)
+//@   loop 3 invariant forall i int :: 0 <= i && i < len(after) && !ml[i].hasBefore ==> !ml[i].wasMoved && !ml[i].isIdentical
